@@ -460,7 +460,7 @@ func Prepare(spec Spec, l *Log, scenarioFn f1testing.ScenarioFn, hooks *Hooks, r
 		completion = 10 * time.Second
 	}
 	settings := envsettings.Settings{Log: envsettings.Log{FilePath: "/dev/null"}}
-	fr, err := run.NewRun(r.Options, sc, trig, completion, settings, r.Metrics, out)
+	fr, err := NewRun(r.Options, sc, trig, completion, settings, r.Metrics, out)
 	if err != nil {
 		r.NewErr = err
 		return r, nil
